@@ -48,6 +48,9 @@ Not demanded
     the equality clauses still apply (the statement demands equality with one-by-one execution);
   * `//` comments, nested block comments, unterminated constants/comments, `remove_comments=True`;
   * session-variable references inside literals ($name in a constant) — C15's subject;
+  * the exact text fakesnow keeps for a session variable: `set v = 'a' /* c */ ;` keeps the re-emitted comment in
+    the stored definition when it comes through execute_string; every use of $v gives the same value, so stored
+    definitions are compared modulo comments and white space (reference tokenizer);
   * nop: rowcount/description details of the success status beyond the column name; patterns applied to the text of
     a statement with leading white space when it goes through execute_string (leading blanks are not part of a
     statement there); what "matching" means beyond Python's `re.match(pattern, statement, re.IGNORECASE)` on the
@@ -382,6 +385,23 @@ def observe_cursor(c):
     return (rows, c.rowcount, desc, c.sqlstate)
 
 
+def _var_text(v):
+    """a variable's stored definition, compared modulo comments and white space (not demanded: its exact text)"""
+    if not isinstance(v, str):
+        return v
+    try:
+        return sf_split.normalise(v)
+    except ValueError:
+        return v
+
+
+def take_state(fs, conn, views):
+    d = dict(observe.digest(fs, [conn], views=views))
+    (sess,) = d["sessions"]
+    d["sessions"] = (sess[:5] + (tuple((k, _var_text(v)) for k, v in sess[5]),) + sess[6:],)
+    return tuple(sorted(d.items()))
+
+
 def run_side(mode, stmts, text, cls="tuple", rc=True, nop=_NOTSET, params=None, views=False):
     """One execution on a fresh instance. mode 'es' = conn.execute_string(text); 'one' = the statements one by one
     (params, if given, go with the single statement)."""
@@ -395,7 +415,7 @@ def run_side(mode, stmts, text, cls="tuple", rc=True, nop=_NOTSET, params=None, 
         cur = conn.cursor()
         for s in FIXTURE:
             cur.execute(s)
-        pre = observe.digest(fs, [conn], views=views)
+        pre = take_state(fs, conn, views)
         curs, exc, ret_type = [], None, None
         try:
             if mode == "es":
@@ -413,7 +433,7 @@ def run_side(mode, stmts, text, cls="tuple", rc=True, nop=_NOTSET, params=None, 
         except Exception as e:  # noqa: BLE001
             exc = _exc(e)
         obs = [observe_cursor(c) for c in curs]
-        post = observe.digest(fs, [conn], views=views)
+        post = take_state(fs, conn, views)
         d = conn._duck_conn  # noqa: SLF001
         d = getattr(d, "_r", d)
         try:
@@ -773,14 +793,14 @@ def work_nop(item, acc, tier):
             if match:
                 acc.nontrivial((ps, sid, path, cls))
             rp = {"part": "nop", "patset": ps, "stmt": sid, "path": path, "cursor_class": cls}
-            shape = f"patset={ps},params={'yes' if params is not None else 'no'},path={path}"
+            wo = without["exc"]
+            wo_kind = "ok" if wo is None else "parse-error" if wo[0].startswith("sqlglot.") else "error"
+            k = f"path={path},params={'yes' if params is not None else 'no'},patset={ps},without-option={wo_kind}"
             if match:
                 clause = "C16.nop.match"
-                k = f"{shape},stmt={sid}"
                 problems = nop_match_problems(with_opt)
             else:
                 clause = "C16.nop.other"
-                k = f"{shape},stmt={sid}"
                 problems = []
                 if with_opt["exc"] != without["exc"]:
                     problems.append(("exception", with_opt["exc"], without["exc"]))
